@@ -32,7 +32,7 @@ def serializer_overrides(W):
             ref = W.resolve('<%s as Serialize>::serialize' % t, 'compiler')
             if ref is not None:
                 r_ = Rec(); h = [v]; ex.run_body(ref, [Ref(h, 0), r_]); return ('struct', r_.items)
-        return ('leaf', None)
+        return ('leaf', t)
     def ov(f, g):
         if 'Serializer>::serialize_struct' in f:
             def m_ser_struct(ex, f_, a): a[0].items.append(('begin', ms.pystr(ex.deref(a[1])), a[2])); return ok(a[0])
@@ -88,7 +88,7 @@ def ob_hash_view(r, tier, seed):
         if missing: problems.append('%s: declared fields not handed to the hasher: %s' % (path, missing))
         for it in recorded:
             name, val = it[0], it[1]
-            if name == 'begin' or val is None: continue
+            if name == 'begin' or val is None or val[0] == 'leaf': continue
             if val[0] == 'struct':
                 fty = dict(adt.variants[0].fields).get(name)
                 if fty is None and adt.name == 'InterfaceUnit': fty = dict(IU.variants[0].fields).get(name)
@@ -334,3 +334,52 @@ def replay_link_error(runs=24):
 
 def obligations_c13():
     return [Ob('O13.6-link-error-order', 'the error reported by link_cores for two stale packages is independent of hash iteration order', ob_link_error_order, ('quick', 'thorough'), 3, {})]
+
+
+# ----------------------------------------------------------------------------- O13.8 (registered under C13) nothing that is serialized into an interface file iterates in per-process order
+def ob_interface_containers(r, tier, seed):
+    W = e2.fresh_world(CRATES); W.overrides = [serializer_overrides(W)]
+    IU = W.tt.find_adt(['artifact', 'InterfaceUnit'], 'compiler')
+    r.bounds = 'structural: one execution of the derived Serialize impls reachable from InterfaceUnit (struct-typed fields, depth <= 3); the type of every field handed to the serializer is read from the executed code'
+    r.assumptions = ['serde serialises a std HashMap / HashSet by iterating it, i.e. in RandomState order, different in every process; IndexMap / BTreeMap / Vec are ordered',
+                     'oracle: no field handed to the serializer is a std HashMap or HashSet (the interface file and the interface hash would differ between two runs on the same sources)']
+    def entry(ex):
+        u = struct_skeleton(W, IU); names = [f[0] for f in IU.variants[0].fields]
+        u.fields[names.index('format_version')] = 1; u.fields[names.index('compiler_abi')] = 1
+        u.fields[names.index('package')] = mkstr('P'); u.fields[names.index('interface_hash')] = mkstr('h')
+        h = [u]
+        return ex.call('artifact::InterfaceUnit::compute_hash', [Ref(h, 0)]).items
+    res = e2.explore(r, W, entry, [])
+    if len(res) != 1 or res[0].kind != 'ok': raise Unsupported('compute_hash: unexpected exploration result')
+    bad = []; seen = []
+    def walk(items, path):
+        for it in items:
+            if it[0] == 'begin' or it[1] is None: continue
+            r.cases += 1
+            if it[1][0] == 'struct': walk(it[1][1], path + '.' + it[0])
+            else:
+                t = it[1][1] or ''; seen.append((path + '.' + it[0], t))
+                if re.search(r'(^|[^A-Za-z])Hash(Map|Set)<', t) and 'IndexMap' not in t.split('<')[0]: bad.append((path + '.' + it[0], t))
+    walk(res[0].value, 'InterfaceUnit')
+    r.nontrivial = r.cases
+    r.samples = [{'field': p_, 'type': t[:80]} for p_, t in seen if '<' in t][:4]
+    for p_, t in bad[:1]:
+        ok_, detail = True, 'field type read from the executed derived Serialize impl (MIR of the current tree)'
+        try:
+            import subprocess, tempfile, shutil, os
+            from vlib import build
+            d = tempfile.mkdtemp(prefix='vf-c13-')
+            open(os.path.join(d, 'sys.gom'), 'w').write('package Sys\nextern "go" "strings" "ToUpper" fn upper(s: string) -> string\nextern "go" "strings" "ToLower" fn lower(s: string) -> string\nextern "go" "os" "Getenv" fn getenv(s: string) -> string\n')
+            os.makedirs(os.path.join(d, 'out')); outs = set()
+            for i in range(12):
+                subprocess.run([build.compiler_bin(), 'build', '--package', 'Sys', '--input', os.path.join(d, 'sys.gom'), '--output', 'out/Sys'], capture_output=True, text=True, timeout=60, cwd=d)
+                fs = [f for f in os.listdir(os.path.join(d, 'out')) if 'interface' in f or f.endswith('.json')]
+                outs.add(tuple(open(os.path.join(d, 'out', f)).read() for f in sorted(fs)))
+            shutil.rmtree(d, ignore_errors=True)
+            ok_ = len(outs) > 1; detail = '12 builds of a package with three extern functions write %d different interface files' % len(outs)
+        except Exception as e: detail += ' (CLI replay failed: %s)' % str(e)[:120]
+        r.findings.append(Finding('interface-field-in-hash-order', 'the serialized interface contains the field %s of type %s: its entries are written in per-process hash order' % (p_, t[:100]), {'field': p_, 'type': t}, ok_, detail))
+
+_obl_c13c = obligations_c13
+def obligations_c13():
+    return _obl_c13c() + [Ob('O13.8-interface-containers', 'no std HashMap / HashSet is serialized into an interface file', ob_interface_containers, ('quick', 'thorough'), 2, {})]
